@@ -253,7 +253,14 @@ pub fn gen_val(dt: &DataType, nullable: bool, r: &mut Rng, null_pct: u32) -> Val
             Val::Int(v)
         }
         DataType::Dictionary(_, v) => { // small pool so that keys repeat
-            if is_stringy(v) { Val::Bytes(r.pick(&["", "a", "bb", "漢字", "a-rather-long-dictionary-value-over-12", "x"]).as_bytes().to_vec()) } else { gen_val(v, false, r, 0) }
+            if is_stringy(v) { Val::Bytes(r.pick(&["", "a", "bb", "漢字", "a-rather-long-dictionary-value-over-12", "x"]).as_bytes().to_vec()) }
+            else { match **v {
+                DataType::Int32 => Val::Int(BigInt::from(*r.pick(&[i32::MIN, i32::MAX, 0, 1, -1, 7, 100000]))),
+                DataType::Int64 => Val::Int(BigInt::from(*r.pick(&[i64::MIN, i64::MAX, 0, 1, -1, 7, 1 << 40]))),
+                DataType::Float64 => Val::Int(BigInt::from(*r.pick(&[0u64, 1 << 63, 0x7ff8 << 48, (0x7ff8 << 48) | 5, (0xfff0 << 48) | 1, 0x3ff0 << 48]))),
+                DataType::Binary => Val::Bytes(r.pick(&[&b""[..], &b"\x00"[..], &b"\xff\xfe"[..], &b"binary-value-longer-than-twelve"[..]]).to_vec()),
+                _ => gen_val(v, false, r, 0),
+            } }
         }
         DataType::Struct(fs) => Val::Struct(fs.iter().map(|f| gen_val(f.data_type(), f.is_nullable(), r, null_pct)).collect()),
         DataType::RunEndEncoded(_, v) => { // long runs of equal values are what the type is for
@@ -401,14 +408,13 @@ pub fn build_array(dt: &DataType, vals: &[&Val], r: &mut Rng) -> ArrayRef {
                     Val::Null => keys.push(None),
                     _ => {
                         let mut e = Vec::new(); enc_val(vt, v, &mut e);
-                        let found = if r.chance(1, 8) { None } else { dict.iter().position(|d| { let mut x = Vec::new(); enc_val(vt, d, &mut x); x == e }) };
+                        let found = if dict.len() < 100 && r.chance(1, 8) { None } else { dict.iter().position(|d| { let mut x = Vec::new(); enc_val(vt, d, &mut x); x == e }) };
                         let idx = match found { Some(i) => i, None => { dict.push((*v).clone()); dict.len() - 1 } };
                         keys.push(Some(idx));
                     }
                 }
             }
             if dict.is_empty() || r.chance(1, 3) { dict.push(gen_val(vt, false, r, 0)); }
-            if dict.len() > 120 { dict.truncate(dict.len()); }
             let dvals: Vec<&Val> = dict.iter().collect();
             let values = build_array(vt, &dvals, r);
             let kn = NullBuffer::from(keys.iter().map(|k| k.is_some()).collect::<Vec<bool>>());
